@@ -306,7 +306,6 @@ def _kernel(V, shape, kind):
         tot = tot + cache[key]
     if kind == "mirror":
         K[centre] = 1 - tot
-    V.kernel_symbols = list(cache.values())
     if kind == "prob":
         if V.symbolic:
             V.assume(tot > 0)
@@ -345,7 +344,6 @@ def _offset_field(V, cfg):
     N = n[0] * n[1] * n[2]
     lo, hi = V.real("m", default=-1.0), V.real("M", default=1.0)
     d = V.reals("d", N, lo=0)
-    V.offset_symbols = list(d)
     return d + lo, hi - d, lo, hi
 
 
@@ -492,12 +490,6 @@ def sc_fc_kernel(V, P, cfg):
     yref = ref_conv(x, n, K3, rules, vals, overrides)
     _check_y(K, y, yref)
     if kind == "fc-bounds":
-        if V.symbolic:
-            # ground instances of the ordered-field law  u >= 0 and d >= 0  =>  u*d >= 0  (valid formulas: they cannot
-            # change a verdict, they only spare the solver the search for its sign lemmas)
-            for u in V.kernel_symbols:
-                for dj in V.offset_symbols:
-                    V.c.assume(z3.Implies(z3.And(u.n >= 0, dj.n >= 0), u.n * dj.n >= 0))
         for e in range(len(y)):
             K.le("m<=y[%d]" % e, lo, y[e], "bound-lower", expand=True)
         sig.state = x_up
